@@ -695,3 +695,86 @@ def rule_bm1(ctx):
                 f"the first-block kernel coefficients multiply `{used}` but "
                 f"the first block of the concatenation is `{first}`",
                 instance="Subspace.intersect:product")
+
+
+# ---------------------------------------------------------------------------
+# FR1: stored data is owned, handed-out coordinates are fresh
+
+FR1_ACCESSORS = [
+    (PROJ, "affine_coords", "points"),
+    (PROJ, "projective_coords", "points"),
+    ("geometry_tools/hyperbolic.py", "kleinian_to_poincare", "points"),
+    ("geometry_tools/hyperbolic.py", "poincare_to_kleinian", "points"),
+    ("geometry_tools/hyperbolic.py", "poincare_to_halfspace", "points"),
+    ("geometry_tools/hyperbolic.py", "halfspace_to_poincare", "points"),
+]
+
+
+def rule_fr1(ctx, accessors=True, setter=True):
+    from itertools import product
+    r = ctx.r
+    r.rule("FR1", "ProjectiveObject.set stores private copies of the primary "
+                  "and dual data it is given (so that objects derived from "
+                  "one another never share a buffer that item assignment "
+                  "writes through), and the coordinate maps return arrays "
+                  "that do not alias their argument (so coordinates read "
+                  "earlier do not move when the object is normalised in "
+                  "place later)")
+    if setter:
+        f = ctx.p.get_function(PROJ, "ProjectiveObject.set")
+        r.analysed(f)
+        flags = {p: "notnone" for p in f.params[1:4]}
+        it = Interp(f.node, flags=flags).run()
+        seen = 0
+        for t, st, rts in it.attr_stores:
+            a = dotted(t)
+            if a not in ("self.proj_data", "self.dual_data"):
+                continue
+            seen += 1
+            shared = sorted(x for x in rts if x.startswith("param:"))
+            inst = f"set:{a}"
+            if not shared:
+                r.ok("FR1", inst, loc(f, st), norm_stmt(st),
+                     "stores a fresh array")
+            else:
+                r.violation(
+                    "FR1", f"{f.fq}|{a}", loc(f, st), norm_stmt(st)[:140],
+                    f"`{a}` may be the caller's own array ({shared}): "
+                    "Class(obj), obj[a:b], reshape and flatten_to_unit then "
+                    "share the primary buffer with their source, and item "
+                    "assignment on one silently moves the other while its "
+                    "derived data stays put", instance=inst)
+        if seen == 0:
+            raise AnalysisError("ProjectiveObject.set: no store to "
+                                "self.proj_data / self.dual_data found")
+    if not accessors:
+        return
+    for rel, name, param in FR1_ACCESSORS:
+        f = ctx.p.get_function(rel, name)
+        r.analysed(f)
+        flagnames = [p for p in f.params if p in ("column_vectors",)]
+        nonenames = [p for p in f.params if p in ("chart_index",)]
+        bad = None
+        nret = 0
+        for vals in product(*([[True, False]] * len(flagnames)
+                              + [["none", "notnone"]] * len(nonenames))):
+            flags = dict(zip(flagnames + nonenames, vals))
+            it = Interp(f.node, flags=flags).run()
+            for st, rts in it.returns:
+                nret += 1
+                if f"param:{param}" in rts:
+                    bad = (st, flags)
+        inst = f"{name}:fresh"
+        if bad is None:
+            r.ok("FR1", inst, loc(f, f.node), "",
+                 f"{nret} return path(s): the result never aliases "
+                 f"`{param}`")
+        else:
+            st, flags = bad
+            r.violation(
+                "FR1", f"{f.fq}|alias", loc(f, st), norm_stmt(st)[:140],
+                f"the returned array can be a view of `{param}` "
+                f"(flags {flags}): for an object this is its stored "
+                "proj_data, which utils.normalize rescales in place on the "
+                "next distance / hyperboloid call, so coordinates read "
+                "earlier change under the caller", instance=inst)
